@@ -354,6 +354,8 @@ func checkGenericErrorDiscipline(c *Ctx, pkgs ...string) {
 	n2 := checkErrBranchFails(c, "errors-surface.error-branch-fails", errBranchExceptions, pkgs...)
 	checkErrDisciplineAll(c, "errors-surface.every-error-tested", pkgs...)
 	checkBuilderArgumentRoles(c, "plumbing.argument-roles", pkgs...)
+	checkEffectDominance(c, "effects.dominance", pkgs...)
+	checkReceivedErrorsSurface(c, "errors-surface.received-errors", pkgs...)
 	if n1 == 0 || n2 == 0 {
 		c.fail("errors-surface.error-branch-fails", "instances", "-", "the generic error rules matched no site in "+joinStrings(pkgs))
 	}
@@ -444,6 +446,118 @@ func checkErrDisciplineAll(c *Ctx, rule string, pkgs ...string) int {
 					return true
 				}, errDisciplineExceptions)
 			}
+		}
+	}
+	return n
+}
+
+// checkReceivedErrorsSurface (generic, registered with the error discipline): an error received from a channel is a
+// worker's verdict. The variable it is received into (`case err := <-errC`, `e := <-errC`, also a struct carrying an
+// error field) must reach a return statement, an assignment to a variable that outlives the clause, a send, or a
+// non-logging call; an error that is only logged (or shadowed by the receive and lost with the clause) turns a failed
+// fan-out into a success.
+func checkReceivedErrorsSurface(c *Ctx, rule string, pkgs ...string) int {
+	p := c.P
+	n := 0
+	carriesError := func(t types.Type) bool {
+		if isErrorType(t) {
+			return true
+		}
+		if st, ok := t.Underlying().(*types.Struct); ok {
+			for i := 0; i < st.NumFields(); i++ {
+				if isErrorType(st.Field(i).Type()) {
+					return true
+				}
+			}
+		}
+		return false
+	}
+	for _, pk := range pkgs {
+		for _, f := range p.FuncsIn(pk) {
+			if f.Decl.Body == nil {
+				continue
+			}
+			info := f.Info()
+			ast.Inspect(f.Decl.Body, func(nd ast.Node) bool {
+				as, ok := nd.(*ast.AssignStmt)
+				if !ok || len(as.Rhs) != 1 || len(as.Lhs) < 1 {
+					return true
+				}
+				u, ok := ast.Unparen(as.Rhs[0]).(*ast.UnaryExpr)
+				if !ok || u.Op != token.ARROW {
+					return true
+				}
+				id, ok := ast.Unparen(as.Lhs[0]).(*ast.Ident)
+				if !ok || id.Name == "_" {
+					return true
+				}
+				v, _ := info.ObjectOf(id).(*types.Var)
+				if v == nil || !carriesError(v.Type()) {
+					return true
+				}
+				if as.Tok != token.DEFINE {
+					return true // received into an existing variable: it outlives the clause (its uses are checked by the flow rules)
+				}
+				n++
+				// scope of the variable: the comm clause (or the enclosing block)
+				var scope ast.Node
+				for par := f.parentOf(as); par != nil; par = f.parentOf(par) {
+					if _, isCC := par.(*ast.CommClause); isCC {
+						scope = par
+						break
+					}
+					if _, isBlk := par.(*ast.BlockStmt); isBlk {
+						scope = par
+						break
+					}
+				}
+				if scope == nil {
+					return true
+				}
+				surfaced := false
+				ast.Inspect(scope, func(m ast.Node) bool {
+					uid, ok := m.(*ast.Ident)
+					if !ok || info.Uses[uid] != v {
+						return true
+					}
+					// climb to the statement using it
+					var child ast.Node = uid
+					for par := f.parentOf(uid); par != nil && par != scope; child, par = par, f.parentOf(par) {
+						switch x := par.(type) {
+						case *ast.CallExpr:
+							if child == x.Fun {
+								continue
+							}
+							if isLoggingCall(info, x) {
+								return true // logged only (so far)
+							}
+							if isClassifierCall(info, x) {
+								continue
+							}
+							surfaced = true
+							return true
+						case *ast.ReturnStmt, *ast.SendStmt, *ast.GoStmt, *ast.DeferStmt:
+							surfaced = true
+							return true
+						case *ast.AssignStmt:
+							for _, r := range x.Rhs {
+								if encloses(r, uid.Pos()) {
+									surfaced = true
+								}
+							}
+							return true
+						case *ast.CompositeLit:
+							surfaced = true
+							return true
+						}
+					}
+					return true
+				})
+				c.check(surfaced, rule, f.ID+":recv:"+v.Name()+"#"+itoa(n), p.Pos(as.Pos()),
+					"a received error reaches a return, an outer variable, a send or a non-logging call",
+					"`"+v.Name()+"`, an error received from a channel in "+f.ID+", is only logged or tested: the variable is local to the clause, so the failure a worker reported is lost and the operation goes on to report success")
+				return true
+			})
 		}
 	}
 	return n
